@@ -1,6 +1,7 @@
 import VirtioVerif.Model.Proto
 import VirtioVerif.Model.Layout
 import VirtioVerif.Model.PciBus
+import VirtioVerif.Model.PciCap
 /-!
 Native line-protocol driver over all models: one request line in, one reply line out.
 `case …` lines reset per-case state and are echoed as `case`.
@@ -9,6 +10,7 @@ open VirtioVerif
 
 structure World where
   dummy : Unit := ()
+  pci : Option PciCap.Transport := none
 
 def World.fresh : World := {}
 
@@ -17,6 +19,9 @@ def step (w : World) (line : String) : World × String :=
   | "case" :: _ => (World.fresh, "case")
   | "layout" :: op :: rest => (w, Layout.handle op (Proto.parseArgs rest))
   | "pci" :: op :: rest => (w, PciBus.handle op (Proto.parseArgs rest))
+  | "pcicap" :: op :: rest =>
+    let (t, o) := PciCap.handle w.pci op (Proto.parseArgs rest)
+    ({ w with pci := t }, o)
   | _ => (w, "bad-op")
 
 partial def loop (h : IO.FS.Stream) (out : IO.FS.Stream) (w : World) : IO Unit := do
